@@ -107,8 +107,9 @@ theorem C32_trace_order (ls : List SLine) (s : CState) (h : Reachable (instrs ls
   rw [hl, callSite, List.getElem?_eq_getElem hlt]
   rfl
 
-/-- a return resumes the caller with exactly the frames it had before the call (so after a callee
-    returns, a later failure in the caller no longer lists the finished call) -/
+/-- one `ret` step from the state right after a call (`frames ++ [pc + 1]`, any `target` holding a
+    `ret` instruction) leads to `pc + 1` with the frames the caller had before the call.  (Only this single
+    step is stated; that a whole callee body leaves the frames below its own untouched is not.) -/
 theorem C32_call_ret_balanced (prog : List (Ann × Kind)) (s : CState) (b : Ann) (target : Nat)
     (hr : prog[target]? = some (b, .ret)) :
     Step prog { pc := target, frames := s.frames ++ [s.pc + 1] } { pc := s.pc + 1, frames := s.frames } :=
